@@ -27,9 +27,11 @@ int __CPROVER_file_local_jwks_c_jwks_item_add(jwk_set_t *jwk_set, jwk_item_t *it
 #define real_jwks_item_add __CPROVER_file_local_jwks_c_jwks_item_add
 
 /* ================================================================== parser havoc (SIDE_LOAD) */
-static const char *const jwk_alpha[] = { "keys", "kty", "k", "alg", "use", "key_ops", "kid" };
-#define JWK_NALPHA 7
-enum { S_KEYS = 0, S_KTY, S_K, S_ALG, S_USE, S_OPS, S_KID };
+/* members the load path itself looks at; use / key_ops (and again alg, kid) are varied in the
+ * dedicated jwk_process_values query (-DSIDE_VALUES) */
+static const char *const jwk_alpha[] = { "keys", "kty", "k", "alg", "kid" };
+#define JWK_NALPHA 5
+enum { S_KEYS = 0, S_KTY, S_K, S_ALG, S_KID };
 
 static json_t *doc;          /* what the parser returned (NULL = not JSON) */
 static json_t *doc_copy;     /* snapshot for the oracle                    */
@@ -441,12 +443,108 @@ int main(void)
 #endif
 			}
 		}
-		json_decref(doc);
 	}
 #endif
-	/* leak / double-free balance of the whole path: everything the load created is released */
-	jwks_free(ret);
-	PROP(vf_live == base_live && vj_live == base_vj, "C07: nothing allocated by the load is leaked or released twice");
+	/* leak balance of the load path: what is live afterwards is exactly what the keyring owns
+	 * (the set, each item, its kid, its oct key bytes, its JSON copy) plus the document reference
+	 * the oracle kept - so no temporary (decode buffers, the parsed document) is leaked.  The
+	 * release path itself (jwks_free and friends) is decided by the C16 queries. */
+	{
+		long own = 1, ownj = 0;           /* the set */
+		unsigned total = pre + (SHAPE == 0 ? 0 : CNT);
+		for (i = 0; i < 3; i++) {
+			const jwk_item_t *it;
+			if (i >= total)
+				break;
+			it = jwks_item_get(ret, i);
+			if (!it)
+				break;
+			own += 1 + (it->kid != NULL) + (it->provider == JWT_CRYPTO_OPS_ANY && it->oct.key != NULL);
+			ownj += it->json ? (long)VJ(it->json)->weight : 0;
+		}
+#if SHAPE != 0
+		ownj += (long)VJ(doc)->weight;    /* the reference kept by vf_parse for the oracle */
+#endif
+		PROP(vf_live - base_live == own && vj_live - base_vj == ownj,
+		     "C07: nothing but what the keyring owns stays allocated after a load (no leaked temporary)");
+	}
+	return 0;
+}
+#endif
+
+#ifdef SIDE_VALUES
+/* jwk_process_values() driven directly: alg, use, key_ops, kid each absent or of ANY JSON type,
+ * key_ops an array of up to 2 elements of any type */
+void __CPROVER_file_local_jwks_c_jwk_process_values(json_t *jwk, jwk_item_t *item);
+
+int main(void)
+{
+	static const char *const va[] = { "alg", "use", "key_ops", "kid" };
+	static jwk_item_t item;
+	vj_t *o, *ops;
+	unsigned k;
+	const json_t *jalg, *juse, *jkid;
+
+	vf_install_alloc();
+	o = vj_new(JSON_OBJECT);
+	__CPROVER_assume(o != NULL);
+	for (k = 0; k < 4; k++) {
+		strcpy(o->key[k], va[k]);
+		if (k == 2)
+			continue;
+		if (nondet_bool())
+			vj_attach_member(o, k, VJ(vj_havoc_scalar_or_empty()));
+	}
+	if (nondet_bool()) {
+		if (nondet_bool()) {
+			ops = VJ(vj_havoc_array(2, 0));
+		} else {
+			ops = VJ(vj_havoc_scalar_or_empty());
+			__CPROVER_assume(ops->j.type != JSON_ARRAY);
+		}
+		vj_attach_member(o, 2, ops);
+	}
+	memset(&item, 0, sizeof(item));
+	__CPROVER_file_local_jwks_c_jwk_process_values(&o->j, &item);
+
+	jalg = json_object_get(&o->j, "alg");
+	juse = json_object_get(&o->j, "use");
+	jkid = json_object_get(&o->j, "kid");
+	if (jalg && jalg->type != JSON_STRING)
+		PROP(item.error && item.error_msg[0] != '\0', "C07: a non-string alg is reported on the item");
+	else
+		PROP(!item.error, "C07: use/key_ops/kid of any type never make the item bad");
+	if (!item.error) {
+		PROP(item.alg == (jalg ? ref_str_alg(VJ(jalg)->s) : JWT_ALG_NONE), "C08: alg is reported as the JWK states it");
+		PROP(item.use == (juse && juse->type == JSON_STRING && ref_streq(VJ(juse)->s, "sig") ? JWK_PUB_KEY_USE_SIG :
+				  juse && juse->type == JSON_STRING && ref_streq(VJ(juse)->s, "enc") ? JWK_PUB_KEY_USE_ENC :
+				  JWK_PUB_KEY_USE_NONE), "C08: use is reported as the JWK states it");
+		if (jkid && jkid->type == JSON_STRING && VJ(jkid)->s[0] != '\0')
+			PROP(item.kid != NULL && strcmp(item.kid, VJ(jkid)->s) == 0, "C08: kid is reported as the JWK states it");
+		else
+			PROP(item.kid == NULL, "C08: no kid unless the JWK has a non-empty string kid");
+		{
+			const json_t *jops = json_object_get(&o->j, "key_ops");
+			unsigned expect = 0, i;
+			static const struct { const char *n; unsigned v; } tbl[] = {
+				{ "sign", JWK_KEY_OP_SIGN }, { "verify", JWK_KEY_OP_VERIFY }, { "encrypt", JWK_KEY_OP_ENCRYPT },
+				{ "decrypt", JWK_KEY_OP_DECRYPT }, { "wrapKey", JWK_KEY_OP_WRAP }, { "unwrapKey", JWK_KEY_OP_UNWRAP },
+				{ "deriveKey", JWK_KEY_OP_DERIVE_KEY }, { "deriveBits", JWK_KEY_OP_DERIVE_BITS } };
+			if (jops && jops->type == JSON_ARRAY)
+				for (i = 0; i < 2; i++) {
+					const json_t *e = json_array_get(jops, i);
+					unsigned t;
+					if (e && e->type == JSON_STRING)
+						for (t = 0; t < 8; t++)
+							if (ref_streq(VJ(e)->s, tbl[t].n))
+								expect |= tbl[t].v;
+				}
+			PROP(item.key_ops == expect, "C08: key_ops is the union of the known operations listed, unknown ones ignored");
+		}
+	}
+	REACH(item.kid != NULL && item.use == JWK_PUB_KEY_USE_ENC, "kid and use=enc imported");
+	REACH(item.key_ops == (JWK_KEY_OP_SIGN | JWK_KEY_OP_VERIFY), "sign+verify imported");
+	REACH(item.error, "non-string alg reported");
 	return 0;
 }
 #endif
